@@ -42,6 +42,9 @@ pub fn check_text(check: &str, prop: &str, text: &str, st: &mut Stats) -> Vec<Vi
     let populated_contracts = detect::contracts(&su).iter().filter(|c| !c.parts.is_empty()).count();
     let written_state_var = {
         let w = detect::writes_in(file.items.iter());
+        if prop == "C08" && detect::state_vars(&su).iter().any(|sv| w.via_tuple.contains(&sv.def.name.name)) {
+            st.count("texts_with_state_variable_written_as_tuple_component");
+        }
         detect::state_vars(&su).iter().any(|sv| w.direct.contains(&sv.def.name.name))
     };
     for name in names {
@@ -158,6 +161,32 @@ pub fn run(env: &Env) -> i32 {
     let names = group_of(&prop);
     let need = prop == "C06" || prop == "C08";
     let mut st = Stats::default();
+    // oracle self-checks (a failure is a harness error, exit 2, never a violation)
+    {
+        use crate::refmodel::detect::{literal_pow2, Pow2};
+        for n in 0u32..=70_000 {
+            let want = if n == 1 { Pow2::Undecided } else if n > 1 && n.is_power_of_two() { Pow2::Yes } else { Pow2::No };
+            if literal_pow2(&n.to_string(), "") != want {
+                st.harness_errors.push(format!("self-check: literal_pow2({n}) is wrong"));
+                break;
+            }
+        }
+        let checks: [(&str, &str, Pow2); 8] = [
+            ("340282366920938463463374607431768211456", "", Pow2::Yes),
+            ("340282366920938463463374607431768211457", "", Pow2::No),
+            ("1", "18", Pow2::No),
+            ("2", "3", Pow2::No),
+            ("2", "0", Pow2::Undecided),
+            ("20", "-1", Pow2::Undecided),
+            ("5", "-3", Pow2::No),
+            ("0", "", Pow2::No),
+        ];
+        for (i, e, want) in checks {
+            if literal_pow2(i, e) != want {
+                st.harness_errors.push(format!("self-check: literal_pow2({i}e{e}) is wrong"));
+            }
+        }
+    }
     for (name, check, case) in regression_cases(env) {
         st.count("regressions_replayed");
         let vs = replay(env, &check, &case, &mut st);
@@ -253,6 +282,9 @@ pub fn run(env: &Env) -> i32 {
     let mut floors = Vec::new();
     for n in names {
         floors.push((format!("canonical sites of {n}"), st.counters.get(&format!("canonical_sites_{n}")).copied().unwrap_or(0), 200));
+    }
+    if prop == "C08" {
+        floors.push(("texts with a state variable written as a component of a tuple assignment".into(), st.counters.get("texts_with_state_variable_written_as_tuple_component").copied().unwrap_or(0), 200));
     }
     let meta = Meta {
         rule: format!("cases = (laid-out program, detector) for the detectors {:?}; programs from the slot matrix (one token per line) and tape-decoded random programs with planted canonical forms and near misses (DESIGN section 8), each in its generated layout, one token per line and one random layout; oracle = reference detectors: every canonical instance's line must be reported and every reported line must carry a canonical or undecided instance; non-trivial = the file has a canonical instance of the detector and (C05/C07) that instance sits in a position class outside those the repository's tests reach, (C06) the file has at least two populated contracts/libraries/interfaces, (C08) the file also directly writes some state variable or the instance sits in such a position class; distinct by (text, detector)", names),
